@@ -296,6 +296,9 @@ func (spec *Spec) Compile(ctx context.Context, interpreters Interpreters, force 
 		}
 
 		for _, b := range n.Branches.Branches {
+			if b == nil {
+				return errors.New("null branch at node '" + name + "'")
+			}
 			// (ParsePatterns, above, has parsed the pattern.)
 			if b.GuardSource != nil && (force || b.Guard == nil) {
 				guard, err := b.GuardSource.Compile(ctx, interpreters)
